@@ -277,6 +277,31 @@ def check_settings(prog: Program, rep, rule: str) -> None:
     if shared:
         hard.append(f'stores into module-level `{shared[0].origin[2]}` ({shared[0].text[:50]}): the settings of one '
                     f'calculator leak into the next')
+    into_arg = [e for (o, fld), e in eng_.summaries[cic.fq].effects.items() if o[0] == 'param' and fld != '_defined_units']
+    if into_arg:
+        hard.append(f'writes into the caller\'s dict (`{into_arg[0].text[:50]}`): the defaults current at that moment - the '
+                    f'global step among them - are frozen into a dict the caller may reuse for a later calculator')
+    # whatever the shape: every setting the caller gives arrives in the Config as given (evaluated, not matched)
+    from ..abseval import DictVal, Evaluator as _Ev, Inst as _Inst, Scalar as _Sc, S as _S, State as _St, Undecided as _Und, cond_leaves as _cl
+    try:
+        ev_ = _Ev(prog, hooks=C.pref_hooks(prog))
+        st_ = _St()
+        user = DictVal({('c', f): _S(f'user.{f}') for f in fields})
+        r_, st_ = ev_.call_value(cic, [user], st=st_)
+        for _pth, leaf_ in _cl(r_):
+            if not isinstance(leaf_, _Inst):
+                raise _Und(f'returns {leaf_!r}')
+            got_ = st_.heap[leaf_.oid]
+            for f in fields:
+                v_ = got_.get(f)
+                if not (isinstance(v_, _Sc) and v_.rf.equals(A.sym(f'user.{f}'))):
+                    hard.append(f'the setting {f} given by the caller reaches the solver as {v_!r}, not as given: plain numbers '
+                                f'in this dict are feet / feet per second by definition')
+                    break
+        if not any('reaches the solver' in h_ for h_ in hard):
+            rep.ok(rule, cic.where, f'all {len(fields)} settings given by the caller arrive in the Config unchanged (evaluated)')
+    except _Und as exc_:
+        rep.undecided(rule, cic.where, 'settings honoured', f'create_interface_config not readable by engine D: {exc_}')
     if hard:
         rep.fail(rule, ifc.path, cic.node.lineno, cic.qualname, 'create_interface_config', '; '.join(hard))
     elif problems:
@@ -621,14 +646,37 @@ def check_aliases(prog: Program, rep, rule: str) -> None:
     slots = set(C.pref_slots(prog))
     # numeric-prefix regex of _parse_value: first characters a number can start with
     pv = prog.func(C.M_UNIT, '_parse_value')
-    pats = [n.args[0].value for n in ast.walk(pv.node) if isinstance(n, ast.Call) and norm(n.func) == 're.match'
-            and n.args and isinstance(n.args[0], ast.Constant) and isinstance(n.args[0].value, str)]
+    # the patterns _parse_value matches against: literals given to re.match / re.fullmatch, and module-level
+    # re.compile(...) constants whose .match / .fullmatch it calls.  A pattern is data; applying it to the reference
+    # strings below executes nothing of the repository.
+    pats: List[Tuple[str, str]] = []
+    for n in ast.walk(pv.node):
+        if not isinstance(n, ast.Call):
+            continue
+        fn_ = norm(n.func)
+        if fn_ in ('re.match', 're.fullmatch') and n.args and isinstance(n.args[0], ast.Constant) \
+                and isinstance(n.args[0].value, str):
+            pats.append((n.args[0].value, fn_.split('.')[1]))
+        elif isinstance(n.func, ast.Attribute) and n.func.attr in ('match', 'fullmatch') and isinstance(n.func.value, ast.Name) \
+                and n.func.value.id in umod.assigns:
+            for _ann, val, _st in umod.assigns[n.func.value.id]:
+                if isinstance(val, ast.Call) and norm(val.func) == 're.compile' and val.args \
+                        and isinstance(val.args[0], ast.Constant) and isinstance(val.args[0].value, str) and len(val.args) == 1:
+                    pats.append((val.args[0].value, n.func.attr))
     if not pats:
         raise AnalysisError('_parse_value: numeric prefix regex not found')
-    split_pat = next((p for p in pats if '(.*$)' in p or '(.*)' in p), None)
-    if split_pat is None:
-        raise AnalysisError('_parse_value: no regex with a unit group')
-    rx = re.compile(split_pat)
+    split = None
+    for p_, how in pats:
+        try:
+            c_ = re.compile(p_)
+        except re.error as exc:
+            raise AnalysisError(f'_parse_value: pattern {p_!r} does not compile: {exc}') from exc
+        if c_.groups == 2:
+            split = (c_, how)
+    if split is None:
+        raise AnalysisError('_parse_value: no regex with a number group and a unit group')
+    rx = split[0]
+    rx_match = rx.match if split[1] == 'match' else rx.fullmatch
 
     pu_f = prog.func(C.M_UNIT, '_parse_unit')
     norm_unit, n_steps = _str_pipeline(pu_f, pu_f.positional[0])
@@ -690,7 +738,7 @@ def check_aliases(prog: Program, rep, rule: str) -> None:
         for a in names:
             if shape['blank_delete'] and ' ' in a:
                 bad_blank.append((a, u, ln))
-            m = rx.match(norm_value('1 ' + a))
+            m = rx_match(norm_value('1 ' + a))
             if not m or m.groups()[0] != '1' or resolve(m.groups()[1]) != u:
                 bad_num.append((a, u, ln))
     bad_num = [x for x in bad_num if x not in bad_blank]
@@ -834,6 +882,7 @@ VARIANTS = [
     Variant('alias-kn-removed', 'break', [(U, "('knot', 'kn', 'kt')", "('knot', 'kt')")], 'C18.R4', '', 'pass'),
     Variant('alias-m-shadows-meter', 'break', [(U, "('mile', 'mi', 'mi.')", "('mile', 'mi', 'mi.', 'm')")], 'C18.R4', '', 'pass'),
     Variant('shared-default-dict', 'break', [(IFC, 'def create_interface_config(interface_config: Optional[InterfaceConfigDict] = None) -> Config:\n    config = InterfaceConfigDict(', '_shared = {}\n\n\ndef create_interface_config(interface_config: Optional[InterfaceConfigDict] = None) -> Config:\n    config = _shared\n    config.update(')], 'C18.R1', 'settings leak between calculators'),
+    Variant('defaults-filled-into-callers-dict', 'break', [(IFC, '    if interface_config is not None and isinstance(interface_config, dict):\n        config.update(interface_config)\n    return Config(**config)', '    if interface_config is not None and isinstance(interface_config, dict):\n        for k, v in config.items():\n            interface_config.setdefault(k, v)\n        config = interface_config\n    return Config(**config)')], 'C18.R1', 'seeded change C18/6'),
     Variant('step-not-normalised', 'break', [(TCF, 'delta_time = self.calc_step / max(1.0, velocity)', 'delta_time = self.calc_step / 1000.0')], 'C18.R3', 'air path per step unbounded in speed'),
     Variant('full-step', 'break', [(TCF, '            return preferred_step / 2.0\n', '            return preferred_step * 2.0\n')], 'C18.R3'),
     Variant('limit-guard-uses-default-drop', 'break', [(TCF, 'or range_vector.y < _cMaximumDrop\n', 'or range_vector.y < -15000\n'), (TCF, 'elif range_vector.y < _cMaximumDrop:', 'elif range_vector.y < -15000:')], 'C18.R1'),
